@@ -39,6 +39,9 @@ type Instance struct {
 	Releases int
 	IdleCbs  []directive.IdleCallback
 	DispCbs  []func()
+
+	// StrongGate, when set, is called at the start of AddReference(nil, false): a scheduler gate inside the call
+	StrongGate func()
 }
 
 // NewInstance constructs a fake instance for a directive.
@@ -56,6 +59,9 @@ func (i *Instance) Close()                             { i.cancel() }
 func (i *Instance) AddStateCallback(directive.StateCallback) func() { return func() {} }
 
 func (i *Instance) AddReference(cb directive.ReferenceHandler, weak bool) directive.Reference {
+	if g := i.StrongGate; g != nil && !weak && cb == nil {
+		g()
+	}
 	r := &Ref{inst: i, Handler: cb, Weak: weak}
 	i.mu.Lock()
 	i.Refs = append(i.Refs, r)
